@@ -67,16 +67,22 @@ func init() {
 		if tier == "thorough" {
 			step = 1
 		}
-		for _, dir := range []string{"forward", "reverse"} {
-			for _, fc := range []string{"on", "bothnofc"} {
-				for ci, cause := range c04Causes[dir] {
-					off := (ci + int(seed)) % step
-					for k := off; k <= maxK; k += step {
-						cfg := WorldCfg{Dir: dir}
-						if fc != "on" {
-							cfg.ClientNoFC, cfg.ServerNoFC = true, true
+		reps := 1
+		if tier == "thorough" {
+			reps = 6 // same (cause, k), different PRNG choice of which direction's frames are delivered first
+		}
+		for r := 0; r < reps; r++ {
+			for _, dir := range []string{"forward", "reverse"} {
+				for _, fc := range []string{"on", "bothnofc"} {
+					for ci, cause := range c04Causes[dir] {
+						off := (ci + int(seed)) % step
+						for k := off; k <= maxK; k += step {
+							cfg := WorldCfg{Dir: dir}
+							if fc != "on" {
+								cfg.ClientNoFC, cfg.ServerNoFC = true, true
+							}
+							out = append(out, Case{Family: "termination", Seed: rng.Int63(), Cfg: cfg, P: map[string]int{"k": k}, S: map[string]string{"cause": cause}})
 						}
-						out = append(out, Case{Family: "termination", Seed: rng.Int63(), Cfg: cfg, P: map[string]int{"k": k}, S: map[string]string{"cause": cause}})
 					}
 				}
 			}
